@@ -125,8 +125,16 @@ def block(b, c, tight=False):
 
         def cells(tag, row):
             n = len(al)
-            return ''.join('\t<%s%s>%s%s%s</%s>\n' % (tag, AL_STYLE[a], '' if (opened and i == 0) else ' ', inl(cc, c), '' if (opened and i == n - 1) else ' ', tag)
-                           for i, (a, cc) in enumerate(zip(al, row)))
+            out_ = ''
+            for i, (a, cc) in enumerate(zip(al, row)):
+                if cc is None:
+                    continue            # merged into the cell before it
+                k = 0
+                while i + 1 + k < len(row) and row[i + 1 + k] is None:
+                    k += 1
+                out_ += '\t<%s%s%s>%s%s%s</%s>\n' % (tag, AL_STYLE[a], ' colspan="%d"' % (k + 1) if k else '', '' if (opened and i == 0) else ' ', inl(cc, c),
+                                                   '' if (opened and i == n - 1) else ' ', tag)
+            return out_
         h = '<table>\n<colgroup>\n' + ''.join(COL[a] + '\n' for a in al) + '</colgroup>\n\n<thead>\n<tr>\n'
         h += cells('th', hdr) + '</tr>\n</thead>\n\n<tbody>\n'
         for r in rows:
